@@ -52,6 +52,7 @@ class State:
         self.region = None
         self.escaped = []
         self.entries = 0
+        self.templates = []         # templates logged with *.exception(...) after the fault fired (what the handlers say)
         self.none_returns = 0       # trace_call invocations that returned None (= "stop tracing this frame")
         self.record = False         # counting run: remember the region of every internal call
         self.regions = []
@@ -279,10 +280,30 @@ def install():
             elif isinstance(val, type) and (val.__module__ or '').startswith('deep') \
                     and not (val.__module__ or '').startswith('deep.logging'):
                 wrap_class(val, val.__module__, seen)
+    _hook_logging()
     _installed['done'] = True
     _installed['functions'] = len(_wrapped)
     _installed['modules'] = len(mods)
     return len(_wrapped)
+
+
+def _hook_logging():
+    """remember what the except handlers log (deep.logging.exception / logging.exception) once the fault has fired"""
+    import logging as std
+    import deep.logging as dl
+
+    def make(orig):
+        def exception(msg, *a, **k):
+            if STATE.fired and len(STATE.templates) < 8:
+                STATE.templates.append(str(msg))
+            return orig(msg, *a, **k)
+        return exception
+    if not getattr(dl.exception, '_verif', False):
+        dl.exception = make(dl.exception)
+        dl.exception._verif = True
+    if not getattr(std.exception, '_verif', False):
+        std.exception = make(std.exception)
+        std.exception._verif = True
 
 
 def original(fn):
@@ -304,4 +325,5 @@ def report():
             break
     return {'count': st.count, 'fired': st.fired, 'stack': list(st.stack), 'region': st.region,
             'invs': [lab for _, lab in st.invs], 'n_passed': len(passed), 'catcher': catcher,
-            'escaped': list(st.escaped), 'entries': st.entries, 'none_returns': st.none_returns}
+            'escaped': list(st.escaped), 'entries': st.entries, 'none_returns': st.none_returns,
+            'templates': list(st.templates)}
